@@ -176,7 +176,7 @@ func c04Body(c *mc.Ctx) {
 		c04Codec(c)
 		return
 	}
-	mode := c.Pick("mode", 4)
+	mode := c.Pick("mode", 5)
 	vals, class := genValues(c, c.Tier == "thorough")
 	c.Class(modeNames[mode] + "/" + class)
 	c.Case(func() string { return fmt.Sprintf("mode=%s values=%s", modeNames[mode], rm.StreamString(vals)) })
